@@ -59,6 +59,8 @@ impl Uci {
             self.execute_command(command).unwrap_or_else(|err| {
                 self.elog(format!("Failed to execute command: {err}"));
             });
+            #[cfg(rce_verif)]
+            crate::verif_hooks::sched("uci:done");
         }
     }
 
@@ -143,6 +145,8 @@ impl Uci {
         self.join_handle = Some(thread::spawn(move || {
             search.search(&SimpleEvaluator, max_depth);
         }));
+        #[cfg(rce_verif)]
+        crate::verif_hooks::sched("uci:spawned");
     }
 
     fn setoption(&self, name: &String, value: Option<&String>) -> Result<(), String> {
